@@ -33,6 +33,17 @@ func init() {
 			job(pair("c15-rel-k3-values", sim.RelCfg("", 0, 3, 0, 8, fBld|fVal|fBNew, oBasic)), pick(tier, 5, 7), 2),
 			job(pair("c15-core-k3-cap1", sim.CoreCfg("", 3, 1, nil, fMove|fBNew|fBExch|fReg|fVal, oBasic)), pick(tier, 5, 7), 2),
 			job(pair("c15-ent-k5-cap1", sim.EntCfg("", 5, 1, fBNew|fBRem, oBasic)), pick(tier, 8, 12), 2),
+			job(pair("c15-rel-k3-two-registrations", func() *sim.Cfg {
+				c := sim.RelCfg("", 0, 3, 0, 8, fBld|fReg, oBasic)
+				c.MaxRegs = 2
+				return c
+			}()), pick(tier, 7, 9), 2),
+			// Reset with exactly / almost a full page (32) of relation tables in one node, and of graph nodes
+			job(pair("c15-boundary-31-tables", sim.BoundaryTablesNCfg("", 31, 2, fBld|fRet, oBasic)), pick(tier, 3, 4), 0.5),
+			job(pair("c15-boundary-32-tables", sim.BoundaryTablesNCfg("", 32, 2, fBld|fRet, oBasic)), pick(tier, 3, 4), 0.5),
+			job(pair("c15-boundary-64-tables", sim.BoundaryTablesNCfg("", 62, 3, fBld|fRet, oBasic)), pick(tier, 3, 4), 0.5),
+			job(pair("c15-boundary-31-nodes", sim.BoundaryNodesNCfg("", 31, 2, fMove, oBasic)), pick(tier, 3, 4), 0.5),
+			job(pair("c15-boundary-32-nodes", sim.BoundaryNodesNCfg("", 32, 2, fMove, oBasic)), pick(tier, 3, 4), 0.5),
 		}
 	}, func(f *wx.Failure, _ string) bool { return true })
 
